@@ -124,6 +124,11 @@ func c02FamilyRows() []model.Row {
 		{"a": "p", "b": "z", "c": "1", "d": "1"},
 		{"a": "p\x00q", "b": "c", "c": "1", "d": "1"},
 		{"a": "p\x01", "b": "b", "c": "1", "d": "1"},
+		// short and long values mixed (a comparison on a fixed-length prefix must fall back correctly)
+		{"a": "zz", "b": "aaaaaaaaa", "c": "1", "d": "1"},
+		{"a": "aaaaaaaaa", "b": "zz", "c": "1", "d": "1"},
+		{"a": "aaaaaaaab", "b": "aaaaaaa", "c": "1", "d": "1"},
+		{"a": "aaaaaaaa", "b": "aaaaaaaaz", "c": "1", "d": "1"},
 	}
 }
 
